@@ -23,6 +23,7 @@ type Program struct {
 	RepoDir  string
 	PkgDir   string
 	LoadSecs float64
+	Dropped  map[string]string // harness files that no longer type-check against the tree -> first error
 
 	jsonOnce sync.Once
 	jsonFn   *ssa.Function
@@ -88,38 +89,66 @@ func Load(repoDir, pkgRel, harnessDir string) (*Program, error) {
 			return nil, err
 		}
 	}
-	cfg := &packages.Config{
-		BuildFlags: []string{"-modfile=" + filepath.Join(modDir, "go.mod")},
-		Mode: packages.NeedName | packages.NeedFiles | packages.NeedCompiledGoFiles | packages.NeedImports |
-			packages.NeedDeps | packages.NeedTypes | packages.NeedSyntax | packages.NeedTypesInfo | packages.NeedTypesSizes | packages.NeedModule,
-		Dir:     pkgDir,
-		Overlay: overlay,
-		Env: append(os.Environ(), "GOFLAGS=-mod=mod", "GOPROXY=off", "GOSUMDB=off", "GOTOOLCHAIN=local",
-			"CGO_ENABLED=1"),
-	}
-	initial, err := packages.Load(cfg, ".")
-	if err != nil {
-		return nil, err
-	}
-	if len(initial) != 1 {
-		return nil, fmt.Errorf("expected one package in %s, got %d", pkgDir, len(initial))
-	}
-	var errs []string
-	packages.Visit(initial, nil, func(p *packages.Package) {
-		for _, e := range p.Errors {
-			errs = append(errs, e.Error())
+	// A change to the tree may break a harness that drives an unexported seam. Such a
+	// harness FILE is dropped (reported as unavailable: INCONCLUSIVE for its harnesses)
+	// and the remaining harnesses are still run, instead of losing the whole check.
+	dropped := map[string]string{}
+	var initial []*packages.Package
+	for attempt := 0; ; attempt++ {
+		cfg := &packages.Config{
+			BuildFlags: []string{"-modfile=" + filepath.Join(modDir, "go.mod")},
+			Mode: packages.NeedName | packages.NeedFiles | packages.NeedCompiledGoFiles | packages.NeedImports |
+				packages.NeedDeps | packages.NeedTypes | packages.NeedSyntax | packages.NeedTypesInfo | packages.NeedTypesSizes | packages.NeedModule,
+			Dir:     pkgDir,
+			Overlay: overlay,
+			Env: append(os.Environ(), "GOFLAGS=-mod=mod", "GOPROXY=off", "GOSUMDB=off", "GOTOOLCHAIN=local",
+				"CGO_ENABLED=1"),
 		}
-	})
-	if len(errs) > 0 {
+		var err error
+		initial, err = packages.Load(cfg, ".")
+		if err != nil {
+			return nil, err
+		}
+		if len(initial) != 1 {
+			return nil, fmt.Errorf("expected one package in %s, got %d", pkgDir, len(initial))
+		}
+		var errs []string
+		packages.Visit(initial, nil, func(p *packages.Package) {
+			for _, e := range p.Errors {
+				errs = append(errs, e.Error())
+			}
+		})
+		if len(errs) == 0 {
+			break
+		}
 		sort.Strings(errs)
-		if len(errs) > 12 {
-			errs = errs[:12]
+		// which harness files carry the errors?
+		bad := map[string]string{}
+		for _, e := range errs {
+			for v := range overlay {
+				base := filepath.Base(v)
+				if strings.Contains(e, v+":") && base != "zz_verif_vp.go" && base != "zz_verif_gen.go" {
+					if _, seen := bad[v]; !seen {
+						bad[v] = e
+					}
+				}
+			}
 		}
-		return nil, fmt.Errorf("type errors (harness out of date with the tree?):\n  %s", strings.Join(errs, "\n  "))
+		if len(bad) == 0 || attempt >= 4 {
+			if len(errs) > 12 {
+				errs = errs[:12]
+			}
+			return nil, fmt.Errorf("type errors (harness out of date with the tree?):\n  %s", strings.Join(errs, "\n  "))
+		}
+		for v, e := range bad {
+			dropped[filepath.Base(v)] = e
+			delete(overlay, v)
+			delete(ovPaths, v)
+		}
 	}
 	prog, pkgs := ssautil.AllPackages(initial, ssa.InstantiateGenerics)
 	prog.Build()
-	p := &Program{Prog: prog, Pkg: pkgs[0], Harness: map[string]*ssa.Function{}, Overlay: ovPaths, RepoDir: repoDir, PkgDir: pkgDir}
+	p := &Program{Prog: prog, Pkg: pkgs[0], Harness: map[string]*ssa.Function{}, Overlay: ovPaths, RepoDir: repoDir, PkgDir: pkgDir, Dropped: dropped}
 	for name, m := range p.Pkg.Members {
 		if f, ok := m.(*ssa.Function); ok && strings.HasPrefix(name, "vpH_") {
 			p.Harness[name] = f
